@@ -66,7 +66,7 @@ func errPropagates(c *Ctx, rule, key string, fn *ssa.Function, call *ssa.Call, i
 					if cst, ok := EvalConst(ev, st); ok && cst.Value == nil {
 						good, why = false, "after "+CalleeName(call.Common())+" failed the function returns a nil error at "+p.InstrPos(x)
 					} else if _, isErr := ev.Type().Underlying().(*types.Interface); isErr {
-						derives := false
+						derives := ResultOfCall(ev, call, idx)
 						for _, l := range p.LeavesNoFields(ev, func(v ssa.Value) FlowAct {
 							if v == ssa.Value(call) {
 								return Stop
